@@ -100,6 +100,22 @@ let c07 (name : string) (shape : int) (bs : n list) : string =
   | "dcmisensor" -> c decode_dcmisensor dcmisensor_zero show_dcmisensor SpecEnc.dcmisensor
   | _ -> failwith ("oracle: c07: unknown layer " ^ name)
 
+let show_pres (p : pres) : string =
+  match p with
+  | RsOk rs -> "ok " ^ String.concat " " (List.map (fun r -> Printf.sprintf "%d:%d:%d:%d:%d" (int_of_n r.cr_id) (int_of_n r.cr_enterprise)
+                                                     (int_of_n r.cr_auth) (int_of_n r.cr_integ) (int_of_n r.cr_conf)) rs)
+  | RsErr -> "err" | RsFault -> "fault" | RsOutOfFuel -> "outoffuel"
+
+let show_fsr_nopayload (r : fsr) : tok list =
+  let l = show_fsr r in
+  (* drop the trailing payload token *)
+  List.rev (List.tl (List.rev l))
+
+(* big numbers as decimal strings *)
+let rec pos_bits (p : positive) : string = match p with XH -> "1" | XO q -> pos_bits q ^ "0" | XI q -> pos_bits q ^ "1"
+let pos_string p = "b" ^ pos_bits p
+let z_string (z : z) = match z with Z0 -> "0" | Zpos p -> pos_string p | Zneg p -> "-" ^ pos_string p
+
 let handle (w : string list) : string =
   match w with
   | ["slsend"; fn; body; ent; cmd; lun; req; script] ->
@@ -165,6 +181,48 @@ let handle (w : string list) : string =
             | _ -> "rakp3fail")
        | Some (r2, None) -> "rakp1err " ^ hex_of_bytes r2
        | None -> "rakp1reject")
+  | ["csparse"; h] ->
+      let d = bytes_of_hex h in show_pres (parse_records (nat_of_int (List.length d)) d [])
+  | ["csretrieve"; chunks] ->
+      let cs = List.map (fun x -> if x = "x" then None else Some (bytes_of_hex x)) (split_list chunks) in
+      (match retrieve_chunks (serve_chunks cs) N0 (nat_of_int 65) [] O with
+       | None -> "cmderr"
+       | Some (data, n) -> Printf.sprintf "%d %s" (int_of_nat n) (show_pres (parse_records (nat_of_int (List.length data)) data [])))
+  | ["dcmiinfo"; page; tbl; fail] ->
+      (* tbl: entity=id,id,...;entity=... *)
+      let ents = List.filter (fun x -> x <> "") (String.split_on_char ';' tbl) in
+      let t = List.map (fun e -> match String.split_on_char '=' e with
+          | [k; v] -> (ni k, List.map ni (List.filter (fun x -> x <> "") (String.split_on_char ',' v)))
+          | _ -> failwith "bad dcmi table") ents in
+      let fl = List.map ni (split_list fail) in
+      (match get_sensor_info (serve_dcmi t fl (nat_of_int (int_of_string page))) with
+       | None -> "err"
+       | Some m -> "ok " ^ String.concat " | " (List.map (fun l -> String.concat "," (List.map (fun x -> string_of_int (int_of_n x)) l)) m))
+  | ["dcmiinst"; page; ids] ->
+      let l = List.map ni (split_list ids) in
+      (match get_entity_instances (serve_dcmi [(n_of_int 1, l)] [] (nat_of_int (int_of_string page)) (n_of_int 1)) with
+       | None -> "err"
+       | Some (r, n) -> Printf.sprintf "%d %s" (int_of_nat n) (nlist r))
+  | ["sdrwalk"; recs] ->
+      let rs = List.map (fun e -> match String.split_on_char '=' e with
+          | [k; v] -> (ni k, bytes_of_hex v) | _ -> failwith "bad sdr list") (split_list recs) in
+      (match walk (serve_sdr rs) (n_of_int 1) N0 (nat_of_int (List.length rs + 1)) [] with
+       | WOk m -> "ok " ^ String.concat " " (List.map (fun (id, r) ->
+            Printf.sprintf "%d=%s" (int_of_n id) (String.concat "," ("ok" :: List.map tok_str (List.filter (fun t -> true) (show_fsr_nopayload r))))) 
+            (List.sort (fun (a, _) (b, _) -> compare (int_of_n a) (int_of_n b)) m))
+       | WErr -> "err" | WOutOfFuel -> "outoffuel")
+  | ["sensor"; fsrh; rsph] ->
+      (match decode_fsr fsr_zero (bytes_of_hex fsrh), decode_sensorreading sensorreading_zero (bytes_of_hex rsph) with
+       | Ok r, Ok rsp ->
+           (match new_sensor_reader r with
+            | RNone -> "noreader"
+            | rd ->
+              (match read_sensor r rd rsp with
+               | Some (RdValue (q, lin)) -> Printf.sprintf "value %s/%s lin=%d" (z_string q.qnum) (pos_string q.qden) (int_of_n lin)
+               | Some RdUnavailable -> "unavailable"
+               | Some RdScanningDisabled -> "scanningdisabled"
+               | None -> "noreader"))
+       | _, _ -> "decodeerr")
   | ["c07"; layer; shape; h] -> c07 layer (int_of_string shape) (bytes_of_hex h)
   | ["cbcenc"; key; iv; pt] ->
       hex_of_bytes (cbc_encrypt (aes_enc (bytes_of_hex key)) (bytes_of_hex iv) (bytes_of_hex pt))
